@@ -100,14 +100,14 @@ Proof.
   destruct l as [|z l]; cbn [map] in *; [intros [= <-]; left; reflexivity|]. intros H. right. apply IH, H.
 Qed.
 
-Lemma npe_check_fn_call_arity f s : fncall_safe f = true -> npe (check_fn_call_arity f s).
+Lemma npe_check_fn_call_arity f res s : fncall_safe f = true -> npe (check_fn_call_arity f res s).
 Proof.
   intros Hf. unfold check_fn_call_arity. cbv zeta.
   set (valid := filter (fun e => negb (is_interface_nil e)) (fc_args f)).
   assert (Hv : forallb expr_safe valid = true) by (apply forallb_filter, Hf).
   assert (Hp : forall e, In e valid -> expr_present e = true).
   { intros e He. apply filter_In in He. destruct He as [_ He]. destruct e; cbn in *; congruence. }
-  destruct (lookup_range (fc_caller_range f) (cs_fnres s)) as [b|].
+  destruct res as [b|].
   - apply npe_bind; [|intros s1; apply npe_check_args, Hv].
     apply npe_if; [apply npe_ok|]. apply npe_if; [|apply npe_ok].
     destruct (nth_error valid (List.length (b_params b))) as [first|] eqn:E1; [|apply npe_ok].
@@ -208,10 +208,10 @@ Qed.
 Lemma npe_check_var_decl d s : vardecl_safe d = true -> npe (check_var_decl d s).
 Proof.
   intros H. unfold vardecl_safe in H. apply andb_prop in H. destruct H as [Hf _].
-  unfold check_var_decl. cbv zeta. destruct (vd_origin d) as [f|]; [|apply npe_ok].
+  unfold check_var_decl. cbv zeta. apply npe_bind; [|intros s3; apply npe_ok].
+  destruct (vd_origin d) as [f|]; [|apply npe_ok].
   apply npe_bind; [|intros s3; apply npe_check_fn_call_arity, Hf].
-  destruct (find_builtin (fc_caller f)) as [b|]; [|apply npe_ok].
-  destruct (b_ctx b); [apply npe_ok|].
+  match goal with |- npe (match ?r with Some _ => _ | None => _ end) => destruct r as [b|] end; [|apply npe_ok].
   destruct (vd_name d) as [[rn n]|]; [|apply npe_ok]. destruct (vd_type d) as [[rt t]|]; [|apply npe_ok].
   apply npe_assert_has_type.
 Qed.
